@@ -62,6 +62,33 @@ def run_early(params, ch):
         s.finish()
 
 
+def run_inflight(params, ch):
+    """A host-initiated close while the device still has a WRTE in flight: pull into a sink that fails at its k-th write."""
+    cfg = scen.ops_cfg(params['chunking'], 4096, params['clse'], params['family'])
+    cfg['records'] = 5
+    s = Session(ch, cfg, twin=params['twin'])
+    try:
+        s.op(('connect',))
+        r = s.op(('pull', '/f', 'failsink:%d' % params['k']))
+        r2 = s.op(scen.op_tuple('stat'))
+        viol = oracle.base_viol(s, completed=False)
+        if r[0] != 'exc':
+            viol.append({'msg': 'harness: pull into a failing sink returned %r' % (r,)})
+        if r2 != scen.op_expected('stat', cfg):
+            viol.append({'msg': 'stat after the aborted pull returned %r' % (r2,)})
+        return {'outcome': (r[:2], tuple((p.cmd, p.a0) for w, p in s.env.events if w == 'H')), 'viol': viol, 'nontrivial': tuple(sorted((k, str(v)) for k, v in params.items())),
+                'sample': dict(params, result=r[:2], host_packets=[p.cmd.decode() for w, p in s.env.events if w == 'H'][-8:]), 'trans': len(s.env.events)}
+    finally:
+        s.finish()
+
+
+def run_interleaved(params, ch):
+    """Two live streams on one thread: a suspended streaming_shell whose packets get parked while another operation runs."""
+    from . import c01
+    o = c01.run_iso(params, ch)
+    return o
+
+
 def seqs(k):
     out = [()]
     lvl = [()]
@@ -92,5 +119,12 @@ def parts(tier):
            for o in ('list', 'stat', 'pull', 'push') for chk in ('one', 'two', 'bytes') for t in ('sync', 'async') for ps in ((40, 9000) if o == 'push' else (40,))]
     okord = Part('reply-vs-okay-order', sc3, run_seq, {'dev-order': None, 'okay-order': 2}, what='for every host WRTE the device either acknowledges first (adbd) or lets its reply overtake the OKAY',
                  bound='<=2 overtaking replies per operation')
-    return [early, okord, Part('op-sequences', sc, run_seq, {'dev-order': None}, what='operation sequences of length <=%d x device parameters' % k,
+    sc4 = [{'chunking': chk, 'clse': c, 'family': f, 'twin': t, 'k': k} for chk in ('one', 'two', 'bytes') for c in ('after-ack', 'eager') for f in ('small', 'extreme') for t in ('sync', 'async')
+           for k in (0, 1, 2, 5)]
+    inflight = Part('close-with-data-in-flight', sc4, run_inflight, {'dev-order': None}, what='host-initiated CLSE while a device WRTE is still in flight (pull into a sink failing at its k-th write), then another operation',
+                    bound='%d cases' % len(sc4))
+    sc5 = [{'twin': t, 'api': a, 'decode': False, 'clse': c} for t in ('sync', 'async') for a in ('shell', 'exec_out', 'streaming_shell') for c in ('after-ack', 'eager')]
+    inter = Part('interleaved-streams', sc5, run_interleaved, {'dev-order': None}, what='a suspended stream whose packets are parked and later delivered from the store: each delivered WRTE must still be acknowledged once',
+                 bound='%d cases x all wire orders' % len(sc5))
+    return [early, okord, inflight, inter, Part('op-sequences', sc, run_seq, {'dev-order': None}, what='operation sequences of length <=%d x device parameters' % k,
                       bound='length <=%d%s' % (k, '; length-3 sequences on 3 of the 9 (family, chunking) combinations' if k == 3 else ''))]
